@@ -156,8 +156,10 @@ def mask_cases(draw):
 
 PARTS = [
     Part('records', check,
-         strategy=lambda tier: gen_records.records(
-             max_steps=30 if tier == 'quick' else 60),
+         strategy=lambda tier: st.one_of(
+             gen_records.records(max_steps=30 if tier == 'quick' else 60),
+             gen_records.records(max_steps=30 if tier == 'quick' else 60),
+             gen_records.float_records()),
          budget={'quick': 375, 'thorough': 4000},
          describe='flags and interstorm rows against the model automaton'),
     Part('masks', check_masks, strategy=lambda tier: mask_cases(),
